@@ -87,4 +87,9 @@ theorem conditional_assign_correct (x0 x1 x2 x3 x4 y0 y1 y2 y3 y4 c : Int) :
   unfold conditional_assign_fn
   split <;> simp_all
 
+theorem conditional_swap_correct (x0 x1 x2 x3 x4 y0 y1 y2 y3 y4 c : Int) :
+    conditional_swap_fn x0 x1 x2 x3 x4 y0 y1 y2 y3 y4 c = if c = 0 then [x0, x1, x2, x3, x4, y0, y1, y2, y3, y4] else [y0, y1, y2, y3, y4, x0, x1, x2, x3, x4] := by
+  unfold conditional_swap_fn
+  split <;> simp_all
+
 end Dalek.Proofs.FiatField51
